@@ -23,6 +23,7 @@ import CtyModel.Generated.IntBounds
 import CtyModel.Lemmas.GoctyFnsTie
 import CtyModel.Lemmas.d18bShape
 import CtyModel.Lemmas.d18bShapeTie
+import CtyModel.Lemmas.d18bFloat32
 namespace CtyModel
 namespace C18
 open Gocty
@@ -919,6 +920,66 @@ theorem bigInt_tocty_exact (S : Sched) (norm : String → String) (v : Int) :
   refine ⟨_, h1, ?_, h2, h3, ⟨_, _, _, _, rfl, bigInt_prec_suffices v⟩, ?_⟩
   · simp only [toCty, toCtyG]
   · exact (bigInt_ok_iff S _ h3 0 _).mpr ⟨v, h2, rfl⟩
+
+/-! ### float32: closed form through the float64 intermediate, and the double-rounding band
+
+`fromCtyNumberFloat` narrows in two steps: `fv := bf.Float64()`, then `float32(fv)`.  The refusal threshold therefore sits
+on the float64 INTERMEDIATE, and the stored value is the float32 nearest to that intermediate, not to the number. -/
+
+/-- Float32, closed form (was only searched): a finite number is refused by a float32 target exactly when it is refused by
+float64 (`|x| ≥ 2^1024 − 2^970`) or its float64 rounding `x.Float64()` has magnitude at least 2^128 − 2^103, the midpoint
+between the largest float32 and 2^128 (the tie going up) -/
+theorem float32_refused_iff (n : Bool) (m : Nat) (e : Int) (p : Nat) (hx : normalNum (.fin n m e p) = true) :
+    (∃ c, fromNum (.fin n m e p) (.float true) = .err c) ↔
+      (0 ≤ Num.cmp (Num.abs (.fin n m e p)) thr64 ∨ 0 ≤ Num.cmp (Num.abs (Num.toF64 (.fin n m e p)).1) thr32) := by
+  have h64 := float64_refused_iff n m e p hx
+  rw [float_refused_iff_inf _ false rfl] at h64
+  rw [float_refused_iff_inf _ true rfl]
+  simp only [Bool.false_eq_true, if_false, if_true] at h64 ⊢
+  have hn : normalNum (Num.toF64 (.fin n m e p)).1 = true := normal_toIEEE 52 (-1022) 1023 _
+  rw [f64to32_isInf_iff _ hn, h64]
+
+/-- … so on a number that IS a float64 (`Float64()` exact — every Go float that entered cty through `ToCtyValue`) the
+test is the float32 range test itself: refused iff `|x| ≥ 2^128 − 2^103`, and what is stored is the float32 nearest to `x` -/
+theorem float32_of_float64 (x f : Num) (hx : x.toF64.2 = true) (h : fromNum x (.float true) = .ok (.flt f)) :
+    f = (Num.toF32 x).1 := by
+  obtain ⟨f', h1, h2, _⟩ := (float_ok_iff x true (.flt f)).mp h
+  cases h1
+  simpa [f64to32_of_exact x hx] using h2
+
+/-- The full-strength reading of "stores that number" for float32 — the value stored is the float32 NEAREST to the number,
+what `bf.Float32()` returns — is false of the code for numbers of more than 53 significant bits: the DOUBLE-ROUNDING band. -/
+def Float32StoresNearest : Prop :=
+  ∀ (x f : Num), fromNum x (.float true) = .ok (.flt f) → f = (Num.toF32 x).1
+
+/-- it holds of every number that `Float64()` represents exactly (`float32_of_float64`) -/
+theorem float32StoresNearest_partial (x f : Num) (hx : x.toF64.2 = true) (h : fromNum x (.float true) = .ok (.flt f)) :
+    f = (Num.toF32 x).1 := float32_of_float64 x f hx h
+
+/-- witness: `1 + 2^-24 + 2^-60` (the decimal 1.000000059604644776 parsed by cty) lies just ABOVE the midpoint of the float32
+neighbours 1 and 1 + 2^-23; `Float64()` rounds it down onto the midpoint, `float32(…)` breaks the tie to even: 1 is stored,
+the nearest float32 is 1 + 2^-23 (replayed on /repo: FromCtyValue gives 8388608p-23, `Float32()` 8388609p-23) -/
+theorem float32StoresNearest_counterexample : ¬ Float32StoresNearest := by
+  intro h
+  have h1 : fromNum (.fin false (2 ^ 60 + 2 ^ 36 + 1) (-60) 512) (.float true) = .ok (.flt (.fin false 1 0 53)) := by rfl
+  have h2 := h _ _ h1
+  have h3 : (Num.toF32 (.fin false (2 ^ 60 + 2 ^ 36 + 1) (-60) 512)).1 = .fin false (2 ^ 23 + 1) (-23) 53 := by rfl
+  rw [h3] at h2
+  exact absurd h2 (by decide)
+
+/-- the refusal side of the band, evaluated: 2^128 − 2^103 − 2^74 rounds (to nearest) to the largest float32 and
+`Float32()` would return that, but `Float64()` rounds it up onto the threshold and it is REFUSED — a number beyond
+MaxFloat32, so the refusal is within the property; one unit below it is accepted and stored as MaxFloat32 -/
+theorem float32_band_witnesses :
+    let max32 : Num := .fin false (2 ^ 24 - 1) 104 53
+    (∃ c, fromNum (.fin false (2 ^ 54 - 2 ^ 29 - 1) 74 512) (.float true) = .err c) ∧
+    (Num.toF32 (.fin false (2 ^ 54 - 2 ^ 29 - 1) 74 512)).1 = max32 ∧
+    fromNum (.fin false (2 ^ 128 - 2 ^ 103 - 2 ^ 74 - 1) 0 512) (.float true) = .ok (.flt max32) := by
+  refine ⟨⟨_, rfl⟩, rfl, rfl⟩
+
+example : normalNum (.fin false (2 ^ 54 - 2 ^ 29 - 1) 74 512) = true ∧
+    0 ≤ Num.cmp (Num.abs (Num.toF64 (.fin false (2 ^ 54 - 2 ^ 29 - 1) 74 512)).1) thr32 := by decide
+example : (Num.toF64 (Num.ofInt 16777217)).2 = true := by rfl
 
 /-- `fromCtyList` as written in the source is the list case of the model of `fromCtyValue` (null, marks, slice and array
 targets, every other target kind refused), the recursive call being the model -/
